@@ -98,7 +98,7 @@ func libPrefix(key string) libHandler {
 // The closure body is executed symbolically for the indices the contract
 // mentions.
 func sortSearch(x *Exec, fr *Frame, st *State, site ssa.Instruction, c *ssa.CallCommon, args []Val, rt types.Type) Val {
-	x.assumed["sort.Search contract: 0<=r<=n, r<n ==> f(r), and for all k<r !f(k) provided f is monotone (monotonicity is an obligation)"] = true
+	x.assumed["sort.Search contract: 0<=r<=n, r<n ==> f(r), and -- only if f is monotone on [0,n) -- !f(k) for all k<r"] = true
 	n := args[0].T
 	f := args[1]
 	if f.Fn == nil || !inlinable(f.Fn) {
@@ -128,9 +128,9 @@ func sortSearch(x *Exec, fr *Frame, st *State, site ssa.Instruction, c *ssa.Call
 		x.iLe(z, k1).S, x.iLe(k1, k2).S, x.iLt(k2, n).S, pred(k1).S, pred(k2).S), "Bool"}
 	below := Term{fmt.Sprintf("(forall ((k!s1 %s)) (=> (and %s %s) (not %s)))", x.S.Idx(), x.iLe(z, k1).S, x.iLt(k1, r).S, pred(k1).S), "Bool"}
 	x.inQuant--
-	name := x.safetyName("monotone", fr, site, x.exprText(site.Pos(), "sort.Search"))
-	x.oblige("pre", name, st.Guard, mono, "sort.Search predicate is monotone on [0,n)", site.Pos(), true)
-	x.assumeUnder(st.Guard, below)
+	// sort.Search has no precondition (it never panics on a non-monotone predicate); only
+	// its "first true" guarantee depends on monotonicity
+	x.assumeUnder(st.Guard, mkImp(mono, below))
 	return Val{T: r, Typ: rt}
 }
 
